@@ -8,6 +8,7 @@ import (
 	"fmt"
 	"strconv"
 	"strings"
+	"sync"
 	"time"
 
 	"github.com/aptpod/iscp-go/iscp"
@@ -207,6 +208,88 @@ func (i *impl) exec(h *lp.H, op string) string {
 		return "noconn"
 	}
 	switch w[0] {
+	case "storm", "stormcut":
+		// n callers enter SendCall at the same instant on a connection of their own. storm: the broker acknowledges every call at
+		// once. stormcut: the broker holds the acks, the transport dies with all n calls in flight, the redial succeeds, the
+		// application's reconnected handler takes 250 ms, and the new broker connection acknowledges every re-sent call at once.
+		// Every caller must be told the ack of exactly its own call id.
+		total := n(1)
+		cut := w[0] == "stormcut"
+		b := broker.New()
+		b.Auto["call"] = false
+		var pmu sync.Mutex
+		seen := map[string]bool{}
+		b.Policy = func(inc *broker.Inc, m message.Message) bool {
+			if c, ok := m.(*message.UpstreamCall); ok {
+				pmu.Lock()
+				seen[c.CallID] = true
+				pmu.Unlock()
+				if !cut || inc.N > 0 {
+					inc.Send(&message.UpstreamCallAck{CallID: c.CallID, ResultCode: message.ResultCodeSucceeded, ExtensionFields: &message.UpstreamCallAckExtensionFields{}})
+				}
+				return true
+			}
+			return false
+		}
+		b.Register()
+		defer i.b.Register()
+		conn, err := iscp.Connect("mem", broker.TransportName, iscp.WithConnPingInterval(20*time.Millisecond), iscp.WithConnPingTimeout(400*time.Millisecond),
+			iscp.WithConnReconnectedEventHandler(iscp.ReconnectedEventHandlerFunc(func(*iscp.ReconnectedEvent) { time.Sleep(250 * time.Millisecond) })))
+		if err != nil {
+			return "err connect"
+		}
+		defer func() {
+			c, cancel := context.WithTimeout(context.Background(), 300*time.Millisecond)
+			conn.Close(c)
+			cancel()
+		}()
+		type sres struct {
+			k   int
+			id  string
+			err error
+		}
+		done := make(chan sres, total)
+		start := make(chan struct{})
+		for k := 0; k < total; k++ {
+			go func(k int) {
+				<-start
+				ctx, cancel := context.WithTimeout(context.Background(), 4*time.Second)
+				defer cancel()
+				id, err := conn.SendCall(ctx, &iscp.UpstreamCall{DestinationNodeID: "dst", Name: "storm", Type: "t", Payload: []byte{byte(k)}})
+				done <- sres{k, id, err}
+			}(k)
+		}
+		close(start)
+		if cut {
+			pmu.Lock()
+			for t := time.Now(); len(seen) < total && time.Since(t) < 2*time.Second; {
+				pmu.Unlock()
+				time.Sleep(time.Millisecond)
+				pmu.Lock()
+			}
+			pmu.Unlock()
+			b.Cur().Kill()
+		}
+		okN, bad := 0, ""
+		ids := map[string]bool{}
+		for j := 0; j < total; j++ {
+			r := <-done
+			switch {
+			case r.err != nil:
+				if bad == "" {
+					bad = fmt.Sprintf("caller %d: the broker acknowledged its call, SendCall returned: %v", r.k, r.err)
+				}
+			case ids[r.id]:
+				bad = fmt.Sprintf("two callers were told the same call id %s", r.id)
+			default:
+				ids[r.id] = true
+				okN++
+			}
+		}
+		if bad != "" {
+			h.Violate(fmt.Sprintf("%s %d: %d of %d callers got their ack; %s", w[0], total, okN, total, bad))
+		}
+		return fmt.Sprintf("%s ok %d", w[0], okN)
 	case "rt":
 		// n sequential call-and-wait round trips; the broker acknowledges and replies at once; nobody drains the shared reply queue
 		total := n(1)
@@ -503,6 +586,14 @@ func main() {
 		}
 		if h.Distinct(fmt.Sprintf("%d/%s", m, sig)) && len(sig) > 6 {
 			h.Sample()
+		}
+	}
+	// storms: many callers at the same instant; the same with an outage while all their calls are in flight
+	for _, op := range []string{"storm 64", "stormcut 20"} {
+		h.Case(op)
+		if do("reset") == "ok" {
+			do(op)
+			h.Distinct(op)
 		}
 	}
 	// volume: more call-and-wait round trips than the shared reply queue holds, while nobody calls ReceiveReplyCall
